@@ -783,7 +783,21 @@ class Unroll(ast.NodeTransformer):
                 e.op, (ast.USub, ast.UAdd)) and isinstance(
                 e.operand, ast.Constant):
             return True
+        if isinstance(e, ast.BinOp) and isinstance(
+                e.op, (ast.Div, ast.Mult, ast.Add, ast.Sub)) and \
+                Unroll._num(e.left) and Unroll._num(e.right):
+            return True
         return False
+
+    @staticmethod
+    def _num(e):
+        if isinstance(e, ast.UnaryOp) and isinstance(e.op, (ast.USub,
+                                                            ast.UAdd)):
+            e = e.operand
+        if isinstance(e, ast.BinOp):
+            return Unroll._num(e.left) and Unroll._num(e.right)
+        return isinstance(e, ast.Constant) and isinstance(
+            e.value, (int, float)) and not isinstance(e.value, bool)
 
     def visit_For(self, node):
         self.generic_visit(node)
@@ -1641,7 +1655,7 @@ _ANCHOR_ROLES = {
     ("NaniteFitModel", "_module_check"):
         lambda t: "raise ModelIncompleteError(" in t,
     ("NaniteFitModel", "_module_autocomplete"):
-        lambda t: "get_default_residuals_wrapper(" in t,
+        lambda t: "get_default_residuals_wrapper" in t,
     ("IndentationRater", "_rate"): lambda t: ".predict(" in t,
     ("IndentationRater", "_pre_rate"):
         lambda t: " == 0" in t and ".predict(" not in t
@@ -1674,7 +1688,12 @@ def _restore_anchor_names(tree):
                         name in wanted:
                     continue
                 try:
-                    txt = ast.unparse(m)
+                    m2 = clone(m)
+                    if m2.body and isinstance(m2.body[0], ast.Expr) and \
+                            isinstance(m2.body[0].value, ast.Constant) and \
+                            isinstance(m2.body[0].value.value, str):
+                        m2.body = m2.body[1:] or [ast.Pass()]
+                    txt = ast.unparse(m2)
                 except Exception:
                     continue
                 if pred(txt):
@@ -1853,17 +1872,29 @@ def normalize_module(tree: ast.Module, extern=None) -> ast.Module:
     _restore_anchor_names(tree)
     _inline_decorators(tree)
     _inline_contextmanagers(tree)
+    from . import normalize2 as n2
+    n2.closure_forms(tree)
+    for n in ast.walk(tree):
+        if isinstance(n, ast.FunctionDef):
+            n2.inline_local_defs(n)
     for _round in range(2):
         before = ast.dump(tree) if _round else None
         tree = Inliner(tree).run()
         tree = Idioms().visit(tree)
         tree = Idioms2(coll).visit(tree)
+        for n in ast.walk(tree):
+            if isinstance(n, ast.FunctionDef):
+                n2.merge_appends(n)
+                n2.literal_iterables(n)
+        tree = n2.Idioms3().visit(tree)
+        tree = n2.ItemsLoops().visit(tree)
         tree = Unroll().visit(tree)
         if _round and ast.dump(tree) == before:
             break
         # (a second round folds helpers that only became direct calls
         # after a dispatch loop was unrolled)
     tree = AttrCalls().visit(tree)
+    n2.sort_keywords(tree)
     ntypes = _namedtuples(tree)
     for n in ast.walk(tree):
         if isinstance(n, ast.FunctionDef):
